@@ -14,6 +14,7 @@ import (
 
 	"vgwsim/core"
 	"vgwsim/env"
+	"vgwsim/gw"
 	"vgwsim/s3c"
 	"vgwsim/sim"
 )
@@ -368,6 +369,27 @@ func (c05) Exec(c *core.Case) (out *core.Outcome) {
 	if len(e.Panics) > 0 {
 		return inconclusive(c, "gateway panic during run: %s", e.Panics[0].Value)
 	}
+	// at rest: once every client is done a GET and a HEAD run alone; what they show is the state the
+	// race left behind, and takes part in the history like any other read
+	e.S.Policy = sim.Seq
+	for _, kind := range []string{"get", "head"} {
+		cl := e.Root()
+		cl.GW = 0
+		rec := &c05Rec{Client: 99, Op: c05Op{Kind: kind}}
+		var res *env.Result
+		if kind == "get" {
+			res = cl.Do(s3c.GetObject(bkt, p.Key))
+		} else {
+			res = cl.Do(s3c.HeadObject(bkt, p.Key))
+		}
+		if a := e.S.Aborted(); a != "" {
+			return inconclusive(c, "%s", a)
+		}
+		rec.Inv, rec.Ret, rec.Status = res.Inv, res.Ret, res.Resp.Status
+		rec.Code = res.Resp.ErrCode()
+		rec.SawW, rec.Detail = c05Attribute(res.Resp, writes, kind == "head")
+		recs = append(recs, rec)
+	}
 	sort.Slice(recs, func(i, j int) bool { return recs[i].Inv < recs[j].Inv })
 
 	// overlap?
@@ -389,6 +411,22 @@ func (c05) Exec(c *core.Case) (out *core.Outcome) {
 	// (a) read integrity
 	for _, r := range recs {
 		if (r.Op.Kind == "get" || r.Op.Kind == "head") && r.SawW == -1 {
+			// a read that overlaps no write or delete shows a state that was left behind, not a passing one
+			atRest := true
+			for _, w := range recs {
+				switch w.Op.Kind {
+				case "put", "copy", "complete", "delete":
+					if w.Inv < r.Ret && r.Inv < w.Ret {
+						atRest = false
+					}
+				}
+			}
+			if atRest {
+				o.Probe("inconsistent_at_rest")
+				o.Violate("read-integrity-at-rest", fmt.Sprintf("C05/read-integrity-at-rest/%s/%s", detailKind(r.Detail), c05Store(c.Cfg)),
+					"%s by client %d, with no write or delete in flight, returned a response that is not exactly one write: %s; history: %s", r.Op.Kind, r.Client, r.Detail, c05History(recs))
+				continue
+			}
 			o.Violate("read-integrity", fmt.Sprintf("C05/read-integrity/%s", detailKind(r.Detail)),
 				"%s by client %d returned a response that is not exactly one write: %s", r.Op.Kind, r.Client, r.Detail)
 		}
@@ -507,6 +545,13 @@ func (c05) Exec(c *core.Case) (out *core.Outcome) {
 		o.Sample = map[string]any{"config": c.Cfg, "sched": sched.Policy, "history": c05History(recs), "switches": e.S.Switches}
 	}
 	return o
+}
+
+func c05Store(cfg gw.Config) string {
+	if cfg.Sidecar {
+		return "sidecar"
+	}
+	return "xattr"
 }
 
 func detailKind(d string) string {
